@@ -283,9 +283,11 @@ def preset_family(ctx):
     scs, meta = [], []
     for spec, mode in modes:
         # (the keyword in the spellings servers use: extension keywords are case-insensitive, RFC 5321 2.4)
-        for offer in (b"STARTTLS", b"StartTLS", b"Starttls", b"starttls", False):
+        # (... and after keyword lines that are empty or blank: a line without a keyword says nothing about the lines that follow it)
+        for offer, pre in ((b"STARTTLS", b""), (b"StartTLS", b""), (b"Starttls", b""), (b"starttls", b""), (False, b""),
+                           (b"STARTTLS", b"250-\r\n"), (b"STARTTLS", b"250-AUTH LOGIN\r\n250-\r\n250-8BITMIME\r\n"), (b"starttls", b"250- \r\n"), (False, b"250-\r\n")):
             for fl in ("sync", "tokio"):
-                caps = b"250-srv\r\n" + (b"250-" + offer + b"\r\n" if offer else b"") + b"250 AUTH PLAIN\r\n"
+                caps = b"250-srv\r\n" + pre + (b"250-" + offer + b"\r\n" if offer else b"") + b"250 AUTH PLAIN\r\n"
                 script = [step("none", b"220 hi\r\n"), step("line", caps), step("line", b"220 go ahead\r\n" if offer else b"250 ok\r\n")] + [step("line", b"250 ok\r\n")] * 2 + \
                          [step("line", b"354 go\r\n"), step("data", b"250 queued\r\n"), step("line", b"221 bye\r\n")]
                 op = dict(spec); op["op"] = "transport"
@@ -387,7 +389,37 @@ def store_family(ctx):
         ctx.violation({"kind": "oracle", "entry": "TlsParametersBuilder::certificate_store", "what": bad[0][1], "scenario": bad[0][0], "failures": len(bad)})
 
 
+def wrapper_next_address_family(ctx):
+    """Implicit TLS holds for every address a name resolves to: when an earlier address accepts the TCP connection and ruins the handshake (or
+    is silent), what the client writes to the next address still begins with a TLS record - never EHLO, credentials or mail in clear."""
+    from smtp import step, run_scenarios
+    scs = []
+    for addrs in (["rubbish", "server"], ["rubbish", "rubbish", "server"], ["hole", "server"], ["server"]):
+        for fl in ("sync", "tokio"):
+            script = [step("none", b"220 hi\r\n"), step("line", b"250-srv\r\n250 AUTH PLAIN\r\n"), step("line", b"235 ok\r\n"), step("line", b"250 ok\r\n"), step("line", b"250 ok\r\n"),
+                      step("line", b"354 go\r\n"), step("data", b"250 queued\r\n"), step("line", b"221 bye\r\n")]
+            scs.append({"id": 720000 + len(scs), "flavor": fl, "timeout_ms": 400, "server_cap_ms": 1500, "hang_ms": 9000, "servers": [script], "addrs": addrs,
+                        "ops": [{"op": "connect_multi", "hello": hx(b"wrap.test"), "addrs": addrs, "tls": "wrapper"},
+                                {"op": "auth", "mechs": ["PLAIN"], "user": hx(b"wrap-user"), "pass": hx(b"wrap-secret")},
+                                {"op": "send", "from": hx(b"a@x.org"), "to": [hx(b"b@y.org")], "msg": hx(b"secret content")}]})
+    bad = []
+    for sc, r in zip(scs, run_scenarios(scs)):
+        ctx.count(); ctx.cls("wrapper-next-address/" + sc["flavor"])
+        if str((r.get("results") or [""])[0]).startswith("skip"):
+            ctx.note("wrapper, several addresses: %s" % r.get("results")[0]); continue
+        srv = (r.get("servers") or [None])[0]
+        got = b"".join(unhx(e[1]) for e in (srv["events"] if srv else []) if e[0] in ("R", "R+"))
+        if got and not got.startswith(b"\x16\x03"):
+            bad.append((sc, "implicit TLS, addresses %s (%s): the client wrote %r to the server without TLS" % (sc["addrs"], sc["flavor"], got[:80])))
+        if r.get("results") in ("HANG", "PANIC"):
+            bad.append((sc, "implicit TLS, addresses %s (%s): %s" % (sc["addrs"], sc["flavor"], r.get("results"))))
+    ctx.cov.setdefault("oracle", {})["wrapper_tls_on_every_resolved_address"] = {"scenarios": len(scs), "failures": len(bad)}
+    if bad:
+        ctx.violation({"kind": "oracle", "entry": "implicit TLS, several addresses", "what": bad[0][1], "scenario": bad[0][0], "failures": len(bad)})
+
+
 def run(ctx):
+    wrapper_next_address_family(ctx)
     store_family(ctx)
     scs = gen(ctx.tier)
     ctx.note("%d TLS scenarios" % len(scs))
